@@ -12,6 +12,10 @@ import GormModel.Gen.Pipelines
 import GormModel.Gen.GuardFacts
 import GormModel.Gen.GuardWhereFacts
 import GormModel.Lemmas.DeleteKeys
+import GormModel.Lemmas.Scopes
+import GormModel.Lemmas.UpdateKeys
+import GormModel.Lemmas.GuardMode
+import GormModel.Lemmas.AssocGuard
 namespace Gorm
 
 /-- a chain call contributes a condition iff its form is effective -/
